@@ -26,10 +26,10 @@ ENABLED_CONDS = {
 }
 
 SAN_UB = ("bounds,null,nonnull-attribute,returns-nonnull-attribute,"
-          "integer-divide-by-zero,object-size,pointer-overflow,vla-bound,"
+          "integer-divide-by-zero,object-size,vla-bound,"
           "unreachable,return,bool,enum,builtin,shift-exponent")
 SAN_UB_CLANG = ("bounds,null,nonnull-attribute,returns-nonnull-attribute,"
-                "integer-divide-by-zero,pointer-overflow,vla-bound,"
+                "integer-divide-by-zero,vla-bound,"
                 "unreachable,return,bool,enum,builtin,shift-exponent")
 
 VARIANTS = {
